@@ -176,6 +176,35 @@ def compile_driver(build, src, extra_src=(), extra_flags=()):
     return out
 
 
+
+def strip_coq_comments(txt):
+    """remove (* ... *) comments (nesting) while leaving string literals alone"""
+    out, i, n, depth = [], 0, len(txt), 0
+    while i < n:
+        c = txt[i]
+        if depth == 0 and c == '"':
+            j = i + 1
+            while j < n:
+                if txt[j] == '"':
+                    if j + 1 < n and txt[j + 1] == '"':
+                        j += 2
+                        continue
+                    break
+                j += 1
+            out.append(txt[i:j + 1])
+            i = j + 1
+        elif txt.startswith("(*", i):
+            depth += 1
+            i += 2
+        elif depth > 0 and txt.startswith("*)", i):
+            depth -= 1
+            i += 2
+        else:
+            if depth == 0:
+                out.append(c)
+            i += 1
+    return "".join(out)
+
 # --------------------------------------------------------------------------- Coq
 
 def coq_setup():
@@ -199,7 +228,7 @@ def coq_closure(start):
         if rel in seen or not os.path.exists(os.path.join(COQ, rel)):
             continue
         seen.append(rel)
-        txt = re.sub(r"\(\*.*?\*\)", "", open(os.path.join(COQ, rel)).read(), flags=re.S)
+        txt = strip_coq_comments(open(os.path.join(COQ, rel)).read())
         for lib, names in re.findall(r"From\s+(LC|LCGen)\s+Require\s+(?:Import\s+|Export\s+)?([^.]*)\.", txt):
             for n in names.split():
                 todo.append(("theories" if lib == "LC" else "gen", n))
@@ -217,8 +246,7 @@ def scan_forbidden(files=None):
             d = os.path.join(COQ, sub)
             files += ["%s/%s" % (sub, f) for f in sorted(os.listdir(d)) if f.endswith(".v")]
     for rel in files:
-        txt = open(os.path.join(COQ, rel)).read()
-        txt = re.sub(r"\(\*.*?\*\)", "", txt, flags=re.S)
+        txt = strip_coq_comments(open(os.path.join(COQ, rel)).read())
         for m in FORBIDDEN.finditer(txt):
             hits.append("%s: %s" % (rel, m.group(0)))
     return hits
@@ -234,7 +262,7 @@ def coq_properties(pid, timeout=1500):
         coq_setup()
         pf = os.path.join(COQ, "theories", "Properties_%s.v" % pid)
         src = open(pf).read()
-        nocom = re.sub(r"\(\*.*?\*\)", "", src, flags=re.S)
+        nocom = strip_coq_comments(src)
         theorems = re.findall(r"^\s*(?:Theorem|Lemma|Corollary|Example)\s+([A-Za-z0-9_']+)", nocom, flags=re.M)
         closure = coq_closure("Properties_%s" % pid)
         forb = scan_forbidden(closure)
